@@ -653,19 +653,226 @@ def add_simulator_obligations(plan, tier, seed):
     lemma_case(3, (1, 2, 0), 1)
 
 
+# ======================================================================================================================================
+# ThermalRelaxationError: both branches of compute_kraus_matrices.  exp(-tg/t1) and exp(-tg/t2) are abstracted to real symbols a, b with
+# the facts the domain gives about them (monotonicity of exp): 0 < a, b <= 1;  t2 <= t1  =>  b <= a;   t1 < t2 <= 2*t1  =>  a <= b, b*b <= a.
+# Square roots are named (s >= 0, s*s == radicand); even powers are replaced by the radicands, so the deviation becomes a rational
+# function of (a, b, pe, eps) and at most the first power of the nested root.
+def thermal_trace(small):
+    names = ["pe", "t1", "t2", "tg"]
+    syms = {n: sp.Symbol(n, real=True) for n in names}
+    guards = []
+
+    def oracle(lhs, op, rhs):
+        rel = {"<=": sp.Le, ">=": sp.Ge, "<": sp.Lt, ">": sp.Gt}[op](lhs, rhs)
+        if op == "<=" and rhs == 0:
+            ans = False                                  # t1 <= 0, t2 <= 0: outside the documented domain (the code raises)
+        elif op == "<=" and lhs == syms["t2"] and rhs == syms["t1"]:
+            ans = small                                  # the branch selector of np.cond
+        else:
+            ans = {"<=": True, ">=": True, "<": False, ">": False}[op]
+        guards.append(rel if ans else sp.Not(rel))
+        return ans
+    SSM.ORACLE = oracle
+    SSM.RADICANDS.clear()
+    SSM.CONSTANTS.clear()
+    SSM.CONSTANTS[float(ch._SQRT_STABILITY_EPS)] = EPS  # pylint: disable=protected-access
+    try:
+        K = qp.ThermalRelaxationError.compute_kraus_matrices(*[SS(syms[n]) for n in names])
+        K = [np.asarray(k, dtype=object) for k in K]
+    finally:
+        SSM.ORACLE = None
+    a, b = sp.Symbol("a"), sp.Symbol("b")
+    sub = {sp.exp(-syms["tg"] / syms["t1"]): a, sp.exp(-syms["tg"] / syms["t2"]): b}
+    table = {}
+
+    def name_sqrts(e):
+        if e.is_Pow and e.exp.is_Rational and e.exp.q == 2:
+            base = name_sqrts(e.base)
+            if base not in table:
+                table[base] = sp.Symbol(f"s{len(table)}", nonnegative=True)
+            return table[base] ** e.exp.p
+        if e.args:
+            return e.func(*[name_sqrts(x) for x in e.args])
+        return e
+    Ks = [[[name_sqrts(sp.sympify(x.e if isinstance(x, SS) else x).subs(sub)) for x in row] for row in k] for k in K]
+    left = {str(x) for k in Ks for row in k for e in row for x in e.free_symbols} - {"a", "b", "pe", "epsilon"} - {str(v) for v in table.values()}
+    if left:
+        raise Unsupported(f"symbols left after abstracting the exponentials: {sorted(left)}")
+    return Ks, guards, table
+
+
+def thermal_point(av, bv, pev):
+    """(pe, t1, t2, tg) with exp(-tg/t1) == av, exp(-tg/t2) == bv"""
+    t1 = 1.0
+    tg = -math.log(av) if av < 1 else 0.0
+    t2 = (-tg / math.log(bv)) if (bv < 1 and tg > 0) else 1.0
+    return dict(pe=pev, t1=t1, t2=t2, tg=tg)
+
+
+def thermal_ob(small, seed):
+    branch = "T2<=T1" if small else "T1<T2<=2T1"
+    label = f"C28/channel:ThermalRelaxationError.compute_kraus_matrices[{branch}]/post:completeness-up-to-eps"
+
+    def native_dev(pt):
+        with np.errstate(all="ignore"):
+            K = qp.ThermalRelaxationError.compute_kraus_matrices(pt["pe"], pt["t1"], pt["t2"], pt["tg"])
+            tot = sum(np.conj(np.asarray(k)).T @ np.asarray(k) for k in K)
+        if not np.all(np.isfinite(tot)):
+            return float("inf")
+        return float(np.max(np.abs(tot - np.eye(2))))
+
+    def replay(w):
+        pt = (w or {}).get("point") or {}
+        err = native_dev(pt)
+        return dict(confirmed=bool(err > 1e-9), max_abs_deviation=err, point=pt)
+
+    def search_visible():
+        """a point of the branch's domain at which the REAL kernel visibly violates completeness (deviation > 1e-9)"""
+        best = (0.0, None)
+        for pe in (0.0, 0.25, 0.5, 1.0):
+            for t2 in ((0.2, 0.7, 1.0) if small else (1.01, 1.3, 1.7, 2.0)):
+                for tg in [0.0, 0.3, 1.0, 3.0, 10.0, 20.0, 30.0, 40.0, 52.0, 80.0]:
+                    pt = dict(pe=pe, t1=1.0, t2=t2, tg=tg)
+                    d = native_dev(pt)
+                    if d > best[0]:
+                        best = (d, pt)
+        return best
+
+    def fn():
+        from fractions import Fraction
+        try:
+            Ks, guards, table = thermal_trace(small)
+        except Unsupported as ex:
+            d, pt = search_visible()
+            if d > 1e-9:
+                return Outcome(REFUTED, "float-standin", f"trace left the fragment ({ex}); stand-in found a deviation", witness=dict(point=pt), replay=replay(dict(point=pt)))
+            return Outcome(UNDECIDED, "trace", f"trace left the fragment: {ex}", extra=dict(standin="passed"))
+        inv = {v: k for k, v in table.items()}
+        order = list(table.values())                      # inner roots first
+        env = {nm: z3.Real(nm) for nm in ["a", "b", "pe", "epsilon"] + [str(v) for v in order]}
+        eps_val = Fraction(float(ch._SQRT_STABILITY_EPS)).limit_denominator(10 ** 30)  # pylint: disable=protected-access
+        dom = [env["epsilon"] == z3.RealVal(str(eps_val)), env["a"] > 0, env["a"] <= 1, env["b"] > 0, env["b"] <= 1, env["pe"] >= 0, env["pe"] <= 1]
+        dom += [env["b"] <= env["a"]] if small else [env["a"] <= env["b"], env["b"] * env["b"] <= env["a"]]
+        n_ob = 0
+
+        def defs(upto):
+            out = []
+            for sname in order[:upto]:
+                out += [env[str(sname)] >= 0, env[str(sname)] * env[str(sname)] == to_z3(inv[sname], env)]
+            return out
+
+        def model_point(m):
+            def fl(x):
+                v = m.eval(env[x], model_completion=True)
+                if not z3.is_rational_value(v):
+                    v = v.approx(20)
+                return float(v.numerator_as_long()) / float(v.denominator_as_long())
+            return thermal_point(fl("a"), fl("b"), fl("pe"))
+        # (1) every radicand is non-negative on the domain (given the roots nested inside it)
+        for k_, sname in enumerate(order):
+            sv = z3.Solver()
+            set_budget(sv, 60000)
+            sv.add(*dom, *defs(k_))
+            sv.add(to_z3(inv[sname], env) < 0)
+            res = sv.check()
+            n_ob += 1
+            if res == z3.sat:
+                pt = model_point(sv.model())
+                return Outcome(REFUTED, "z3-nra", f"radicand {inv[sname]} can be negative inside the domain", witness=dict(point=pt), replay=replay(dict(point=pt)))
+            if res != z3.unsat:
+                return Outcome(UNDECIDED, "z3-nra", f"radicand sign undecided: {inv[sname]}")
+
+        # (2) |sum K^dagger K - 1| <= C * eps: even powers of the roots replaced by the radicands, fractions cleared
+        def reduce_squares(e):
+            """even powers of the named roots -> powers of their radicands (outermost root first; a radicand may contain inner roots)"""
+            for sname in reversed(order):
+                base = inv[sname]
+                num, den = sp.fraction(sp.together(e))
+
+                def red(p):
+                    P = sp.Poly(sp.expand(p), sname)
+                    return sum((c * base ** (k // 2) * sname ** (k % 2) for (k,), c in P.terms()), sp.Integer(0))
+                e = red(num) / red(den)
+            return e
+        for i in range(2):
+            for j in range(2):
+                e = sum(sum(Ks[q][r][i] * Ks[q][r][j] for r in range(2)) for q in range(len(Ks))) - (1 if i == j else 0)
+                e = reduce_squares(sp.sympify(e))
+                num, den = sp.fraction(sp.together(e))
+                num, den = sp.expand(num), sp.expand(den)
+                if num == 0:
+                    continue
+                N, D = to_z3(num, env), to_z3(den, env)
+                sv = z3.Solver()
+                set_budget(sv, 120000)
+                need, todo = set(), [x for x in (num.free_symbols | den.free_symbols) if x in inv]
+                while todo:                                   # the roots that still occur (and the roots inside their radicands)
+                    x = todo.pop()
+                    if x not in need:
+                        need.add(x)
+                        todo += [y for y in inv[x].free_symbols if y in inv]
+                sv.add(*dom)
+                for sname in order:
+                    if sname in need:
+                        sv.add(env[str(sname)] >= 0, env[str(sname)] * env[str(sname)] == to_z3(inv[sname], env))
+                sv.add(z3.Or(D == 0, z3.And(D > 0, z3.Or(N > CBOUND * env["epsilon"] * D, N < -CBOUND * env["epsilon"] * D)),
+                             z3.And(D < 0, z3.Or(N < CBOUND * env["epsilon"] * D, N > -CBOUND * env["epsilon"] * D))))
+                res = sv.check()
+                n_ob += 1
+                if res == z3.sat:
+                    pt = model_point(sv.model())
+                    rp = replay(dict(point=pt))
+                    if not rp["confirmed"]:
+                        # the solver's point violates the C*eps bound below float visibility: look for a point where the REAL kernel
+                        # visibly violates completeness
+                        d, vis = search_visible()
+                        if vis is not None and d > 1e-9:
+                            pt, rp = vis, replay(dict(point=vis))
+                        else:
+                            rp = dict(confirmed=None, note="bound violated symbolically, below float visibility at the points tried", point=pt,
+                                      max_abs_deviation=rp["max_abs_deviation"])
+                    return Outcome(REFUTED, "sympy+z3-nra", f"entry ({i},{j}) of sum K^dagger K - 1 exceeds {CBOUND}*eps inside the documented domain",
+                                   witness=dict(point=pt, entry=[i, j]), replay=rp)
+                if res != z3.unsat:
+                    return Outcome(UNDECIDED, "z3-nra", f"bound undecided for entry ({i},{j})")
+        return Outcome(DISCHARGED, "sympy+z3-nra", f"{len(Ks)} Kraus operators; guards {[str(g) for g in guards]}; {len(order)} named roots",
+                       extra=dict(sub_obligations=max(1, n_ob)))
+    return Obligation(label, "post", fn, func=(CH, "ThermalRelaxationError.compute_kraus_matrices"), replay=replay, timeout=600,
+                      sample="sum of K^dagger K equals 1 up to C*eps on the documented domain (exponentials abstracted with their monotonicity facts)")
+
+
 def build(tier, seed):
     plan = Plan("C28", level="proof")
-    plan.explanation = ("Each channel's real compute_kraus_matrices runs on sympy-backed symbolic parameters; its own domain guards "
-                        "become the path condition; radicand signs and |sum K^dagger K - I| <= 16*eps are discharged by z3 NRA.")
-    plan.trusted_base = ["vf/symx/sscalar.py", "sympy expand", "z3 nlsat"]
+    plan.explanation = ("(1) Each channel's real compute_kraus_matrices runs on sympy-backed symbolic parameters; its own domain guards "
+                        "become the path condition; radicand signs and |sum K^dagger K - I| <= 16*eps are discharged by z3 NRA. "
+                        "(2) The real default.mixed kernels (apply_operation_einsum / _tensordot, the apply_operation dispatch with its fast paths, "
+                        "get_final_state's padding, measure_final_state for density_matrix / state) run on a generic symbolic density tensor and "
+                        "generic symbolic Kraus matrices; every result entry is compared, as a polynomial, with the Kraus sum written by index "
+                        "arithmetic. (3) Trace and Hermiticity preservation are polynomial lemmas over that reference.")
+    plan.trusted_base = ["vf/symx/sscalar.py", "sympy expand", "z3 nlsat", "vf/symx exact ring + Sym scalar; numpy structural operations on "
+                         "object arrays (einsum, tensordot, moveaxis, stack, roll, reshape) executed as they are",
+                         "harness: casting a symbolic object array to float/complex keeps it symbolic; GenericChannel (a Channel subclass returning "
+                         "the given Kraus matrices) stands for an arbitrary channel"]
     plan.assumptions = ["A-float-as-real", f"completeness is required up to the source's stabiliser eps = {ch._SQRT_STABILITY_EPS} (exact "  # pylint: disable=protected-access
                         "equality is false by construction of the code)", "parameters real"]
-    plan.unverified = ["ThermalRelaxationError (exp/eigen-decomposition branches)", "QubitChannel (user supplied Kraus matrices)",
-                       "default.mixed's application of the Kraus operators, positivity/trace of simulated states"]
+    plan.unverified = ["QubitChannel (user supplied Kraus matrices; its constructor validates completeness numerically with allclose, which a "
+                       "symbolic trace cannot reach)",
+                       "positive semidefiniteness of simulated states (a mathematical consequence of the Kraus form proved for the kernels, not "
+                       "machine-checked)", "sampling / shot-based measurements, readout errors, other interfaces than numpy, wire counts above 4",
+                       "create_initial_state with a user-supplied density matrix, Snapshot, mid-circuit QubitDensityMatrix"]
     plan.size_bounds = ["PauliError words X, Y, Z, XY, ZI, YY"]
     for name, names, bld, sampler in CHANNELS:
         ob = make_ob(name, names, bld, sampler, seed)
         plan.add(ob)
         plan.fn_under_contract(*ob.func)
+    for small in (True, False):
+        ob = thermal_ob(small, seed)
+        if not small:
+            ob.finding = "F32"     # open known finding (known_findings.json): the T1<T2<=2T1 branch is not trace preserving for long gate times
+        plan.add(ob)
+        plan.fn_under_contract(*ob.func)
+    plan.assumptions.append("ThermalRelaxationError: exp(-tg/t1), exp(-tg/t2) are abstracted to symbols a, b constrained by 0 < a, b <= 1 and the "
+                            "monotonicity facts of exp on the branch's domain (b <= a for t2 <= t1; a <= b and b*b <= a for t1 < t2 <= 2*t1)")
     add_simulator_obligations(plan, tier, seed)
     return plan
